@@ -232,7 +232,7 @@ class C12(Check):
     runs = {"quick": 8000, "thorough": 100000}
     budget_s = {"quick": 80.0, "thorough": 800.0}
     block = 50
-    run_timeout_s = 60.0
+    run_timeout_s = 240.0      # wall-clock guard only (the quadrature cost of a run is bounded by the generator); generous because the machine may be loaded
     fixed_prefix = 0
     real = ["sparseSpACE.Function: every built-in class and wrapper named in engines/function_sim.py (call path, cache, vectorised overrides, analytic integrals)"]
     stub = ["none: the environment is the caller issuing the operation sequence"]
@@ -307,7 +307,7 @@ class C12(Check):
             for d in range(dim):
                 c *= 1 + len(set(k for k in kinks(spec, d) if box[0][d] < k < box[1][d]))
             return c
-        boxes = [bx for bx in boxes if spec[0] == "FunctionDiagonalDiscont" or cost(bx) <= 6e5]
+        boxes = [bx for bx in boxes if spec[0] == "FunctionDiagonalDiscont" or cost(bx) <= 3e5]
         return {"config": {"spec": spec, "boxes": boxes}, "ops": ops}
 
     def simplify(self, s):
